@@ -115,7 +115,7 @@ def gen_spec(rng, slot_index, swarm):
     centres = [rng.random() for _ in range(rng.choice([1, 2, 3]))]
     pool = swarm.get("pool")
     use_pool = pool is not None and kind in ("dt", "d", "n") and rng.random() < 0.7
-    both_ends = use_pool and rng.random() < 0.5
+    both_ends = use_pool and rng.random() < (0.8 if kind == "n" else 0.5)
     if use_pool:
         # slots of this run draw their instants from one shared pool: equal time
         # values (and often equal data extents) across different timelines
@@ -242,7 +242,7 @@ def gen_spec(rng, slot_index, swarm):
         if rng.random() < 0.3:
             lat["fontsize"] = rng.choice(["10pt", "12pt"])
     if kind == "n":
-        scale = "own_linear" if rng.random() < 0.85 else "own_linear_round"
+        scale = "own_linear" if rng.random() < 0.7 else "own_linear_round"
     else:
         scale = rng.choices(["default", "own_time"], weights=[swarm["default_p"], 1 - swarm["default_p"]])[0]
     return {"backend": backend, "items": items, "options": opts, "scale": scale}
